@@ -135,3 +135,129 @@ Proof.
 Qed.
 
 End FreeProofs.
+
+(* ---- who may execute: every node a depth-first run executes, other than the node the caller ran, was triggered by a
+   signal that had really been sent -- and by FailProofs.Inv a completion-type signal is only ever sent by a node whose
+   function returned, `failed` only by one whose function raised.  Hence no node runs on the strength of the completion
+   of a node that failed. ---- *)
+Section Triggered.
+Variable g : flow.
+
+Lemma run_node_sent s n s1 x : run_node g s n = (s1, x) ->
+  match x with
+  | Ran => sent s1 = sent s ++ emissions g (outv s1) false n
+  | Raised => sent s1 = sent s ++ emissions g (outv s1) true n
+  | Refused => sent s1 = sent s
+  end.
+Proof.
+  unfold run_node. destruct (nth n (failedv s) false); [intros E; inversion E; reflexivity|].
+  destruct (all_some _); [|intros E; inversion E; reflexivity].
+  destruct (sem _ _); intros E; inversion E; reflexivity.
+Qed.
+
+(* the nodes whose function was called in a stretch of the log *)
+Definition called (l : list logev) : list nat := started l.
+
+Definition Trig (s s' : fstate) (root : option nat) : Prop :=
+  incl (sent s) (sent s') /\
+  exists l, log s' = log s ++ l /\
+    forall m, In m (called l) -> Some m = root \/ exists e r, In (e, r) (sent s') /\ fst r = m.
+
+Lemma called_app l1 l2 m : In m (called (l1 ++ l2)) <-> In m (called l1) \/ In m (called l2).
+Proof. unfold called, started. rewrite flat_map_app, in_app_iff. reflexivity. Qed.
+
+Lemma trig_refl s root : Trig s s root.
+Proof. split; [apply incl_refl|]. exists []. rewrite app_nil_r. split; [reflexivity|]. intros m []. Qed.
+
+Lemma trig_weaken_sent s s1 s' root : Trig s s1 root -> incl (sent s1) (sent s') ->
+  forall l, log s1 = log s ++ l -> forall m, In m (called l) -> Some m = root \/ exists e r, In (e, r) (sent s') /\ fst r = m.
+Proof.
+  intros [_ [l0 [E0 H0]]] Hi l El m Hm. assert (l = l0) as -> by (rewrite E0 in El; apply app_inv_head in El; auto).
+  destruct (H0 m Hm) as [A|[e [r [A B]]]]; [left; exact A|]. right. exists e, r. split; [apply Hi, A | exact B].
+Qed.
+
+Lemma trig_trans s s1 s' root : Trig s s1 root -> Trig s1 s' None -> Trig s s' root.
+Proof.
+  intros T1 [I2 [l2 [E2 H2]]]. pose proof T1 as [I1 [l1 [E1 H1]]].
+  split; [eapply incl_tran; eauto|]. exists (l1 ++ l2). split; [rewrite E2, E1, app_assoc; reflexivity|].
+  intros m Hm. apply called_app in Hm. destruct Hm as [Hm|Hm].
+  - apply (trig_weaken_sent s s1 s' root T1 I2 l1 E1 m Hm).
+  - destruct (H2 m Hm) as [A|A]; [discriminate A | right; exact A].
+Qed.
+
+Section DeliverT.
+  Variable exec : fstate -> nat -> fstate * fres.
+  Hypothesis exec_trig : forall s n s' r, exec s n = (s', r) -> Trig s s' (Some n).
+
+  Lemma with_recv_exec_trig s n got s' r : exec (with_recv s n got) n = (s', r) -> Trig s s' (Some n).
+  Proof. intros E. apply exec_trig in E. exact E. Qed.
+
+  (* a delivery of an emission that was sent: whatever executes was triggered by something sent *)
+  Lemma fdeliver_trig s e r s' x : In (e, r) (sent s) -> fdeliver g exec s e r = (s', x) -> Trig s s' None.
+  Proof.
+    intros Hin. unfold fdeliver.
+    assert (K : forall s0, sent s0 = sent s -> log s0 = log s -> exec s0 (fst r) = (s', x) -> Trig s s' None).
+    { intros s0 Es El E. apply exec_trig in E. destruct E as [I [l [El' H]]].
+      split; [rewrite <- Es; exact I|]. exists l. split; [rewrite El', El; reflexivity|].
+      intros m Hm. right. destruct (H m Hm) as [A|A]; [|exact A].
+      inversion A; subst. exists e, r. split; [apply I; rewrite Es; exact Hin | reflexivity]. }
+    destruct (snd r).
+    - apply K; reflexivity.
+    - destruct (subset_em _ _).
+      + apply K; reflexivity.
+      + intros E. inversion E; subst. split; [cbn; apply incl_refl|]. exists []. cbn. rewrite app_nil_r.
+        split; [reflexivity|]. intros m [].
+  Qed.
+
+  Lemma fdeliver_all_trig ems : forall s s' x, incl ems (sent s) -> fdeliver_all g exec s ems = (s', x) -> Trig s s' None.
+  Proof.
+    induction ems as [|[e r] rest IH]; intros s s' x Hi; cbn [fdeliver_all].
+    - intros E. inversion E; subst. apply trig_refl.
+    - destruct (fdeliver g exec s e r) as [s1 y] eqn:Ed.
+      pose proof (fdeliver_trig s e r s1 y (Hi _ (or_introl eq_refl)) Ed) as T1.
+      destruct y; try (intros E; inversion E; subst; exact T1).
+      intros E. eapply trig_trans; [exact T1|]. apply (IH s1 s' x); [|exact E].
+      intros p Hp. apply T1. apply Hi. right. exact Hp.
+  Qed.
+End DeliverT.
+
+Theorem fexec_trig : forall fuel s n s' r, fexec g fuel s n = (s', r) -> Trig s s' (Some n).
+Proof.
+  induction fuel as [|fuel IH]; intros s n s' r; cbn [fexec].
+  - intros E. inversion E; subst. apply trig_refl.
+  - destruct (run_node g s n) as [s1 x] eqn:Er. pose proof (run_node_sent _ _ _ _ Er) as Hs.
+    assert (Hl : exists ev, log s1 = log s ++ [ev] /\ forall m, In m (called [ev]) -> m = n).
+    { unfold run_node in Er. destruct (nth n (failedv s) false).
+      - inversion Er; subst. exists (LRefuse n). split; [reflexivity|]. intros m [].
+      - destruct (all_some _).
+        + destruct (sem _ _); inversion Er; subst; cbn.
+          * exists (LOk n). split; [reflexivity|]. intros m [H|[]]. symmetry; exact H.
+          * exists (LRaise n). split; [reflexivity|]. intros m [H|[]]. symmetry; exact H.
+        + inversion Er; subst. exists (LRefuse n). split; [reflexivity|]. intros m []. }
+    destruct Hl as [ev [Hl Hev]].
+    assert (T0 : Trig s s1 (Some n)).
+    { split; [destruct x; rewrite Hs; [apply incl_appl, incl_refl | apply incl_appl, incl_refl | apply incl_refl]|].
+      exists [ev]. split; [exact Hl|]. intros m Hm. left. rewrite (Hev m Hm). reflexivity. }
+    destruct x.
+    + intros E. eapply trig_trans; [exact T0|]. eapply (fdeliver_all_trig (fexec g fuel) IH); [|exact E].
+      rewrite Hs. apply incl_appr, incl_refl.
+    + destruct (fdeliver_all g (fexec g fuel) s1 (emissions g (outv s1) true n)) as [s2 y] eqn:Ed.
+      intros E. inversion E; subst s' r. eapply trig_trans; [exact T0|].
+      eapply (fdeliver_all_trig (fexec g fuel) IH); [|exact Ed]. rewrite Hs. apply incl_appr, incl_refl.
+    + intros E. inversion E; subst. exact T0.
+Qed.
+
+End Triggered.
+
+Theorem fexec_triggered_soundly (g : flow) fuel s n s' r : Inv s -> fexec g fuel s n = (s', r) ->
+  exists l, log s' = log s ++ l /\
+    forall m, In m (started l) -> m = n \/
+      exists e rc, fst rc = m /\ In (e, rc) (sent s') /\
+        (snd e = OFailed -> In (LRaise (fst e)) (log s')) /\ (snd e <> OFailed -> In (LOk (fst e)) (log s')).
+Proof.
+  intros HI E. destruct (fexec_good g _ _ _ _ _ HI E) as [HI' _].
+  destruct (fexec_trig g _ _ _ _ _ E) as [_ [l [El H]]]. exists l. split; [exact El|].
+  intros m Hm. destruct (H m Hm) as [A|[e [rc [A B]]]].
+  - left. inversion A. reflexivity.
+  - right. exists e, rc. split; [exact B|]. split; [exact A|]. apply (inv_sent _ HI' e rc A).
+Qed.
